@@ -73,6 +73,14 @@ def interpolate_fwd_contract(cfg: ivp.Cfg):
         Phi, m_pred, P_pred = ivp.predict_spec(cfg, left.mean_flat, cov(L, left), cond)
         cl += [eq("interpolated_mean_is_prediction_from_left_state", interpolated.u.mean_flat, m_pred),
                eq("interpolated_cov_is_prediction_from_left_state", cov(L, interpolated.u), P_pred)]
+        # the left reference for later interpolations is the interpolated marginal ...
+        fm_left = ivp.filtering_marginal(ir.interp_from)
+        cl += [eq("interp_from_marginal_is_interpolated_mean", fm_left.mean_flat, m_pred), eq("interp_from_marginal_is_interpolated_cov", cov(L, fm_left), P_pred)]
+        if cfg.strategy == "fixedpoint":
+            # ... with a unit backward model: the interpolated point is the new target of the fixed-point smoother
+            A_, b_, Q_ = law(L, ir.interp_from.solution_full.conditional)
+            eye = jnp.broadcast_to(jnp.eye(A_.shape[-1]), A_.shape)
+            cl += [eq("interp_from_backward_model_is_identity", A_, eye), eq("interp_from_backward_offset_zero", b_, 0.0), eq("interp_from_backward_noise_zero", Q_, 0.0)]
         if cfg.strategy != "filter":
             # backward model of the right state now points to t: p(x_t | x_t1) from the prior over t1 - t
             cond2 = interp_from.prior.transition(dt=interp_to.t - t, output_scale=interp_to.output_scale)
